@@ -594,6 +594,8 @@ class Executor:
                 return
             except Infeasible:
                 self.stats['infeasible'] += 1
+                if FORKLOG:
+                    print('  [infeasible] at', self._where(st), getattr(st, 'forklog', ())[-3:])
                 return
             except Panic as p:
                 results.append(PathResult('panic', st, msg=p.msg))
@@ -1322,6 +1324,12 @@ class CallCtx:
         self.fr = fr
 
     def ret(self, v):
+        top = self.st.frames[-1] if self.st.frames else None
+        if isinstance(top, NativeFrame) and self.ret_bb is None and self.destlv is None:
+            # a fn item / modelled function called by a native consumer (e.g. `.map(UndoEntry::checksum)`): hand the
+            # value to that frame, exactly as a returning MIR frame would
+            top.pending = v if v is not None else UNIT
+            return
         if self.destlv is not None:
             self.destlv.set(v if v is not None else UNIT, self.st)
         if self.ret_bb is None:
